@@ -4,17 +4,15 @@ import Aiortc.Lemmas.C06.SctpAbandonWire
 # The weaker invariant of the SCTP endpoint automaton (C05c): partial reliability and pending stream ids allowed
 
 `Aiortc.Sctp.WF` (C05a) demands `NoPendingId` (every queued message's channel already has a stream id) and `NoPR`
-(nothing partially reliable is queued for sending).  `Aiortc.Sctp.V2.WF U n e` drops both and replaces them by
+(nothing partially reliable is queued for sending).  `Aiortc.Sctp.V2.WF U e` drops both and replaces them by
 
 * a PR discipline relative to a fixed set `U` of stream ids (`U.length ≤ 16381`): a chunk / queued message that is
   subject to partial reliability belongs to a stream in `U`; the streams a FORWARD-TSN lists are distinct members
   of `U`, so the chunk fits its 16-bit length (`4 + 4·n + 4 < 65536 ⇔ n ≤ 16381`);
 * the structural facts `_maybe_abandon` relies on: adjacent chunks of `sent_queue ++ outbound_queue` either belong
   to the same stream or are a message boundary (E then B), and the last queued chunk ends a message;
-* a capacity clause for stream ids (`RoomOk`): the number of registered channels plus channels waiting for an id is
-  at most 32768 (so `_data_channel_flush` finds an id `< 65536` of the local parity), with a slack `n` expressed in
-  receive-window bytes: a DATA_CHANNEL_OPEN has ≥ 12 bytes, so the peer cannot register a channel without giving back
-  12 bytes of window — `12·(channels) + 655360 + n ≤ advertised_rwnd` bounds the channels by `32768 − n/12`.
+* no capacity clause for stream ids any more: since the fix "close a data channel that cannot get a stream id"
+  `_data_channel_flush` closes the channel when every id of the local parity below 65536 is taken.
 
 The names shadow the C05a ones inside the namespace `Aiortc.Sctp.V2`.
 -/
@@ -86,9 +84,6 @@ theorem FsOk.length_le {U : List Nat} {s : List (Nat × Int)} (h : FsOk U s) : s
 
 /-! ## data channels -/
 
-/-- Number of channel objects still waiting for a stream id. -/
-def pendingCh (chans : List Chan) : Nat := chans.countP (fun c => c.id.isNone)
-
 /-- Data channel bookkeeping (no `NoPendingId`; `NoPR` replaced by `qPR`). -/
 structure ChansOk (U : List Nat) (chans : List Chan) (dcs : List (Nat × Nat)) (q : List (Nat × Nat × Bytes))
     (rcq : List Nat) : Prop where
@@ -101,11 +96,6 @@ structure ChansOk (U : List Nat) (chans : List Chan) (dcs : List (Nat × Nat)) (
   sid : ∀ c ∈ chans, ∀ s, c.id = some s → s < 65536
   rcq : ∀ s ∈ rcq, s < 65536
 
-/-- Stream id capacity, with `n` bytes of slack (see the module doc). -/
-structure RoomOk (n : Nat) (chans : List Chan) (dcs : List (Nat × Nat)) (rwnd : Int) : Prop where
-  cap : pendingCh chans + dcs.length ≤ 32768
-  room : 12 * ((pendingCh chans + dcs.length : Nat) : Int) + 655360 + (n : Int) ≤ rwnd
-
 /-- A stored stream reset request can be serialised again (`_reconfig_timer_expired`). -/
 def RcOk (p : Int × Int × Int × List Nat) : Prop :=
   (RcParam.resetOut p.1.toNat p.2.1.toNat p.2.2.1.toNat p.2.2.2).inRange = true ∧ p.2.2.2.length ≤ 135
@@ -116,7 +106,7 @@ def TaskOk : Task → Prop
   | .resendReconfig p => RcOk p
   | _ => True
 
-structure WF (U : List Nat) (n : Nat) (e : Ep) : Prop where
+structure WF (U : List Nat) (e : Ep) : Prop where
   net : NetOk e.localPort e.remotePort e.remoteTag e.localTag e.inboundMax e.outboundCount
   ch : ChansOk U e.chans e.dataChannels e.dcQueue e.reconfigQueue
   tx : TxOk U e.tx
@@ -124,7 +114,6 @@ structure WF (U : List Nat) (n : Nat) (e : Ep) : Prop where
   rcReq : InRange32 e.reconfigRequestSeq
   rcResp : InRange32 e.reconfigResponseSeq
   sack : e.sackNeeded = true → e.rx.isSome
-  room : RoomOk n e.chans e.dataChannels e.rwnd
   /-- `_data_channel_id` was set by `start()` -/
   ids : ∃ s0, e.dcId = some s0 ∧ s0 ≤ 1
   cap : U.length ≤ 16381
@@ -135,23 +124,6 @@ structure WF (U : List Nat) (n : Nat) (e : Ep) : Prop where
   rcr : ∀ p, e.reconfigRequest = some p → RcOk p
 
 /-! ## elementary preservation -/
-
-theorem pendingCh_set {chans : List Chan} {i : Nat} {c c' : Chan} (hi : chans[i]? = some c) (hid : c'.id = c.id) :
-    pendingCh (chans.set i c') = pendingCh chans := by
-  have hlt : i < chans.length := by
-    rcases Nat.lt_or_ge i chans.length with h | h
-    · exact h
-    · rw [List.getElem?_eq_none h] at hi; cases hi
-  have hg : chans[i] = c := by
-    rw [List.getElem?_eq_getElem hlt] at hi; exact Option.some.inj hi
-  unfold pendingCh
-  rw [List.countP_set hlt, hg, hid]
-  have hpos : (if c.id.isNone = true then 1 else 0) ≤ List.countP (fun c => c.id.isNone) chans := by
-    split
-    · rename_i hn
-      exact List.countP_pos_iff.mpr ⟨c, List.mem_of_getElem? hi, hn⟩
-    · omega
-  omega
 
 theorem ChansOk.set {U chans dcs q rcq} (h : ChansOk U chans dcs q rcq) {i : Nat} {c c' : Chan}
     (hi : chans[i]? = some c) (hs : Chan.Same c c') : ChansOk U (chans.set i c') dcs q rcq := by
@@ -179,54 +151,42 @@ theorem ChansOk.set {U chans dcs q rcq} (h : ChansOk U chans dcs q rcq) {i : Nat
     · exact h.sid d hd s hs
     · exact h.sid c (List.mem_of_getElem? hi) s (h1 ▸ hs)
 
-theorem RoomOk.set {n chans dcs rwnd} (h : RoomOk n chans dcs rwnd) {i : Nat} {c c' : Chan}
-    (hi : chans[i]? = some c) (hs : Chan.Same c c') : RoomOk n (chans.set i c') dcs rwnd := by
-  have := pendingCh_set hi hs.1
-  exact ⟨by rw [this]; exact h.cap, by rw [this]; exact h.room⟩
+theorem WF.setChan {U} {e : Ep} (h : WF U e) {i : Nat} {c c' : Chan} (hi : e.chans[i]? = some c)
+    (hs : Chan.Same c c') : WF U { e with chans := e.chans.set i c' } :=
+  ⟨h.net, h.ch.set hi hs, h.tx, h.rx, h.rcReq, h.rcResp, h.sack, h.ids, h.cap, h.tm1, h.tm2, h.tasks, h.rcr⟩
 
-/-- Less slack is always fine. -/
-theorem RoomOk.mono {n m chans dcs rwnd} (h : RoomOk n chans dcs rwnd) (hm : m ≤ n) : RoomOk m chans dcs rwnd :=
-  ⟨h.cap, by have := h.room; omega⟩
+theorem WF.setTx {U} {e : Ep} (h : WF U e) {tx : Tx} (ht : TxOk U tx) : WF U { e with tx := tx } :=
+  ⟨h.net, h.ch, ht, h.rx, h.rcReq, h.rcResp, h.sack, h.ids, h.cap, h.tm1, h.tm2, h.tasks, h.rcr⟩
 
-theorem WF.mono {U n m} {e : Ep} (h : WF U n e) (hm : m ≤ n) : WF U m e :=
-  ⟨h.net, h.ch, h.tx, h.rx, h.rcReq, h.rcResp, h.sack, h.room.mono hm, h.ids, h.cap, h.tm1, h.tm2, h.tasks, h.rcr⟩
-
-theorem WF.setChan {U n} {e : Ep} (h : WF U n e) {i : Nat} {c c' : Chan} (hi : e.chans[i]? = some c)
-    (hs : Chan.Same c c') : WF U n { e with chans := e.chans.set i c' } :=
-  ⟨h.net, h.ch.set hi hs, h.tx, h.rx, h.rcReq, h.rcResp, h.sack, h.room.set hi hs, h.ids, h.cap, h.tm1, h.tm2, h.tasks, h.rcr⟩
-
-theorem WF.setTx {U n} {e : Ep} (h : WF U n e) {tx : Tx} (ht : TxOk U tx) : WF U n { e with tx := tx } :=
-  ⟨h.net, h.ch, ht, h.rx, h.rcReq, h.rcResp, h.sack, h.room, h.ids, h.cap, h.tm1, h.tm2, h.tasks, h.rcr⟩
-
-theorem WF.pushTask {U n} {e : Ep} (h : WF U n e) {t : Task} (ht : TaskOk t) :
-    WF U n { e with tasks := e.tasks ++ [t] } :=
-  ⟨h.net, h.ch, h.tx, h.rx, h.rcReq, h.rcResp, h.sack, h.room, h.ids, h.cap, h.tm1, h.tm2,
+theorem WF.pushTask {U} {e : Ep} (h : WF U e) {t : Task} (ht : TaskOk t) :
+    WF U { e with tasks := e.tasks ++ [t] } :=
+  ⟨h.net, h.ch, h.tx, h.rx, h.rcReq, h.rcResp, h.sack, h.ids, h.cap, h.tm1, h.tm2,
    fun x hx => by
      rcases List.mem_append.mp hx with hx | hx
      · exact h.tasks x hx
      · simp at hx; subst hx; exact ht, h.rcr⟩
 
-theorem WF.t1Off {U n} {e : Ep} (h : WF U n e) (ch : Option Chunk) : WF U n { e with t1 := false, t1Chunk := ch } :=
-  ⟨h.net, h.ch, h.tx, h.rx, h.rcReq, h.rcResp, h.sack, h.room, h.ids, h.cap, (fun hf => by cases hf), h.tm2,
+theorem WF.t1Off {U} {e : Ep} (h : WF U e) (ch : Option Chunk) : WF U { e with t1 := false, t1Chunk := ch } :=
+  ⟨h.net, h.ch, h.tx, h.rx, h.rcReq, h.rcResp, h.sack, h.ids, h.cap, (fun hf => by cases hf), h.tm2,
    h.tasks, h.rcr⟩
 
-theorem WF.t2Off {U n} {e : Ep} (h : WF U n e) (ch : Option Chunk) : WF U n { e with t2 := false, t2Chunk := ch } :=
-  ⟨h.net, h.ch, h.tx, h.rx, h.rcReq, h.rcResp, h.sack, h.room, h.ids, h.cap, h.tm1, (fun hf => by cases hf),
+theorem WF.t2Off {U} {e : Ep} (h : WF U e) (ch : Option Chunk) : WF U { e with t2 := false, t2Chunk := ch } :=
+  ⟨h.net, h.ch, h.tx, h.rx, h.rcReq, h.rcResp, h.sack, h.ids, h.cap, h.tm1, (fun hf => by cases hf),
    h.tasks, h.rcr⟩
 
-theorem WF.t1On {U n} {e : Ep} (h : WF U n e) {c : Chunk} (hc : c.inRange = true) :
-    WF U n { e with t1Chunk := some c, t1Failures := 0, t1 := true } :=
-  ⟨h.net, h.ch, h.tx, h.rx, h.rcReq, h.rcResp, h.sack, h.room, h.ids, h.cap, (fun _ => ⟨c, rfl, hc⟩), h.tm2,
+theorem WF.t1On {U} {e : Ep} (h : WF U e) {c : Chunk} (hc : c.inRange = true) :
+    WF U { e with t1Chunk := some c, t1Failures := 0, t1 := true } :=
+  ⟨h.net, h.ch, h.tx, h.rx, h.rcReq, h.rcResp, h.sack, h.ids, h.cap, (fun _ => ⟨c, rfl, hc⟩), h.tm2,
    h.tasks, h.rcr⟩
 
-theorem WF.t2On {U n} {e : Ep} (h : WF U n e) {c : Chunk} (hc : c.inRange = true) :
-    WF U n { e with t2Chunk := some c, t2Failures := 0, t2 := true } :=
-  ⟨h.net, h.ch, h.tx, h.rx, h.rcReq, h.rcResp, h.sack, h.room, h.ids, h.cap, h.tm1, (fun _ => ⟨c, rfl, hc⟩),
+theorem WF.t2On {U} {e : Ep} (h : WF U e) {c : Chunk} (hc : c.inRange = true) :
+    WF U { e with t2Chunk := some c, t2Failures := 0, t2 := true } :=
+  ⟨h.net, h.ch, h.tx, h.rx, h.rcReq, h.rcResp, h.sack, h.ids, h.cap, h.tm1, (fun _ => ⟨c, rfl, hc⟩),
    h.tasks, h.rcr⟩
 
 /-- no stream reset request pending any more -/
-theorem WF.clearRcr {U n} {e : Ep} (h : WF U n e) : WF U n { e with reconfigRequest := none } :=
-  ⟨h.net, h.ch, h.tx, h.rx, h.rcReq, h.rcResp, h.sack, h.room, h.ids, h.cap, h.tm1, h.tm2, h.tasks,
+theorem WF.clearRcr {U} {e : Ep} (h : WF U e) : WF U { e with reconfigRequest := none } :=
+  ⟨h.net, h.ch, h.tx, h.rx, h.rcReq, h.rcResp, h.sack, h.ids, h.cap, h.tm1, h.tm2, h.tasks,
    fun p hp => by cases hp⟩
 
 end Aiortc.Sctp.V2
